@@ -43,6 +43,16 @@ def build_lf(case):
     names = lf.get_param_names()
     if case.get("mprobs") and "mprobs" in names:
         lf.set_motif_probs(case["mprobs"])
+    elif "mprobs" in names and case.get("fix_mprobs", True) and case.get("moltype", "dna") != "protein" \
+            and not getattr(lf.model, "_equal_motif_probs", False) and case["model"] not in ("JC69", "K80"):
+        # codon / dinucleotide models: fixed motif probabilities on the model's own input alphabet (nucleotides or
+        # words), bounded away from zero -- never estimated from the alignment, so that original and transformed
+        # inputs are evaluated at the same parameter values
+        ia = [str(m) for m in lf.model.mprob_model.get_input_alphabet()]
+        r2 = random.Random(case.get("pseed", 0) + 7919)
+        w = [r2.randint(1, 9) for _ in ia]
+        tot = float(sum(w))
+        lf.set_motif_probs({m: x / tot for m, x in zip(ia, w)})
     rng = random.Random(case.get("pseed", 0))
     params = {}
     rate_pars = sorted(p for p in names if p not in NON_RATE)
